@@ -13,7 +13,7 @@ BIG = 1e29
 
 def job(kind, op, typ, arch, mode, ref="-", stride=64, seed=0, lo=0, hi=None, signs="+-"):
     if hi is None:
-        hi = 0x7FFFFFFF if typ != "f64" else 0x7FEFFFFFFFFFFFFF
+        hi = 0x7FFFFFFF if typ not in ("f64", "i64", "u64") else 0x7FEFFFFFFFFFFFFF
     return "%s %s %s %s %s %s %d %d %x %x %s" % (kind, op, typ, arch, mode, ref, stride, seed, lo, hi, signs)
 
 
@@ -47,10 +47,7 @@ def run(ctx, fam, jobs, tag, archset="x86", keep=24, timeout=7200):
             swept[k] = swept.get(k, 0) + r["swept"]
             stuck += r["stuck"]
             continue
-        bits = 64 if r["t"] == "f64" else 32
-        base = int(r["base"], 16)
-        bucket = base >> (52 if bits == 64 else 23)
-        k = (r["op"], r["t"], r["mode"], bucket)
+        k = (r["op"], r["t"], r["mode"], r["bucket"])
         if k not in best or r["score"] > best[k]["score"]:
             best[k] = r
     per = {}
@@ -65,7 +62,7 @@ def run(ctx, fam, jobs, tag, archset="x86", keep=24, timeout=7200):
         if fine:
             maxscore["%s/%s/%s" % (op, t, mode)] = round(fine[0]["score"], 3)
         for r in gross + fine:
-            bits = 64 if t == "f64" else 32
+            bits = 64 if t in ("f64", "i64", "u64") else 32
             m = (1 << bits) - 1
             base, step, nl = int(r["base"], 16), int(r["step"], 16), r["nl"]
             rows.append(dict(op=op, t=t, kind=r["kind"], mode=mode, arch=r["arch"], lanes=[(base + i * step) & m for i in range(nl)],
